@@ -473,7 +473,10 @@ func (b *Broker) RemovePipeline(t EventType, id PipelineID) error {
 		return fmt.Errorf("no graph for EventType %s", t)
 	}
 
+	// The pipeline's nodes stay registered, but are no longer referenced by it.
+	nodes, _ := g.roots.Nodes(id)
 	g.roots.Delete(id)
+	b.releaseNodes(nodes)
 	return nil
 }
 
